@@ -809,6 +809,12 @@ var c03shapes = []struct {
 	{[]c03stage{{Shards: 2}, {Shards: 2, Deps: []int{0}}, {Shards: 2, Deps: []int{0}, Shuffle: []int{0}}}, []int{1}, []int{2}},                    // two evaluations sharing stage 0
 	{[]c03stage{{Shards: 1}, {Shards: 2, Deps: []int{0}, Shuffle: []int{0}}, {Shards: 1, Deps: []int{1}, Shuffle: []int{1}}}, []int{2}, []int{1}}, // two evaluations, one contained in the other
 	{[]c03stage{{Shards: 2}, {Shards: 1}, {Shards: 2, Deps: []int{0, 1}, Shuffle: []int{0, 1}}}, []int{2}, nil},                                   // cogroup-like: two shuffle deps
+	// phase groups whose members each read a producer of their own (what compile builds for the
+	// re-shuffle of a reused Result and for shuffle inputs over a materialized slice): the members
+	// of one phase do not share their dependencies
+	{[]c03stage{{Shards: 2}, {Shards: 2, Deps: []int{0}}, {Shards: 1, Deps: []int{1}, Shuffle: []int{1}}}, []int{2}, nil},
+	{[]c03stage{{Shards: 2}, {Shards: 2, Deps: []int{0}}, {Shards: 2, Deps: []int{1}, Shuffle: []int{1}}}, []int{2}, nil},
+	{[]c03stage{{Shards: 3}, {Shards: 3, Deps: []int{0}}, {Shards: 1, Deps: []int{1}, Shuffle: []int{1}}}, []int{2}, []int{1}},
 }
 
 func runC03(r *vf.Runner) {
